@@ -1,7 +1,7 @@
 (* Shared numeric/ordering base for C06:
    - three-way comparisons as total preorders ([strans], lexicographic lists);
-   - the float64 domain as extended dyadic rationals with Go's cmp.Compare;
-   - int -> float64 conversion (round to nearest, ties to even) on Z. *)
+   - the float64 domain as extended dyadic rationals with Go's cmp.Compare,
+     math.Trunc and the exact fractional remainder. *)
 From Coq Require Import QArith.
 From ZV Require Import Base.Prelude.
 Close Scope Q_scope.
@@ -243,28 +243,22 @@ Proof.
 Qed.
 
 (* ---------------------------------------------------------------- *)
-(* Go: float64(int64) / float64(uint64): round to nearest, ties to even,
-   53-bit significand.  Defined on all of Z (no overflow below 2^1024). *)
-Definition round53 (z : Z) : Z :=
-  let a := Z.abs z in
-  if a <? 2 ^ 53 then z
-  else
-    let k := Z.log2 a - 52 in
-    let q := a / 2 ^ k in
-    let r := a mod 2 ^ k in
-    let h := 2 ^ (k - 1) in
-    let q' := if (h <? r) || ((r =? h) && Z.odd q) then q + 1 else q in
-    Z.sgn z * (q' * 2 ^ k).
+(* Integer part (math.Trunc, toward zero) and the exact remainder f - Trunc(f)
+   of a finite float; 0 for NaN and the infinities (never used there). *)
+Definition ftrunc (f : fl) : Z :=
+  match f with
+  | FFin m e => if 0 <=? e then m * 2 ^ e else Z.quot m (2 ^ (- e))
+  | _ => 0
+  end.
 
-Definition int_to_fl (z : Z) : fl := FFin (round53 z) 0.
+Definition ffrac (f : fl) : fl :=
+  match f with
+  | FFin m e => if 0 <=? e then FFin 0 0 else FFin (Z.rem m (2 ^ (- e))) e
+  | _ => FFin 0 0
+  end.
 
-Definition float_exact (z : Z) : Prop := round53 z = z.
-
-Lemma float_exact_small z : Z.abs z < 2 ^ 53 -> float_exact z.
-Proof.
-  intros H. unfold float_exact, round53.
-  destruct (Z.ltb_spec (Z.abs z) (2 ^ 53)); [reflexivity | lia].
-Qed.
+(* IEEE ">=" *)
+Definition fge (x y : fl) : bool := negb (isnan x) && negb (isnan y) && negb (flt x y).
 
 Definition maxi64 : Z := 9223372036854775807.
 Definition mini64 : Z := -9223372036854775808.
